@@ -198,7 +198,7 @@ class C22(C.Check):
     def _execute(self, ctx):
         rng = ctx.rng(22)
         quick = ctx.quick
-        work = os.path.join(ctx.run_dir(), "okl")
+        work = os.path.join(ctx.run_dir(), "okl_p%d" % os.getpid())
         shutil.rmtree(work, ignore_errors=True)
         plan = []
         stored = [(c["kind"], c["cfg"]) for c in ctx.corpus() if "cfg" in c]
@@ -271,7 +271,7 @@ class C22(C.Check):
                     C.clist(obs), C.cz(v["ncalls"]), C.clist([C.cz(i) for i in v["lidx"]])))
                 where.append(("draw_samples", cfg, r["ntask"], rank, v["local"]))
                 ntasks_seen[(cfg["n_samples"], cfg["mirror"], cfg["geo"], r["ntask"])] = 1
-        bad = C.eval_cases(self.prop, "corr", HEADER, checks)
+        bad = C.eval_cases(self.prop, "corr_p%d" % os.getpid(), HEADER, checks)
         for i in bad[:4]:
             res.add_broken("correspondence", "%s vs coq/C22 model" % where[i][0], {"where": [str(x) for x in where[i]], "check": checks[i][:1200]})
         res.coverage.update({
@@ -327,7 +327,7 @@ class C22(C.Check):
         i = rp["input"]
         cfg = dict(i["cfg"])
         if cfg.get("outdir"):
-            cfg["outdir"] = os.path.join(ctx.run_dir(), "replay_okl")
+            cfg["outdir"] = os.path.join(ctx.run_dir(), "replay_okl_p%d" % os.getpid())
             shutil.rmtree(cfg["outdir"], ignore_errors=True)
         runs = [{"kind": i["kind"], "cfg": cfg, "ntask": nt, "res": run_cfg(i["kind"], cfg, nt, 600)} for nt in sorted({1, i["ntask"]})]
         return bool(self._judge(runs))
